@@ -525,9 +525,9 @@ def main(chk):
     for lo in range(0, 4096, 512):
         jobs.append({"id": "permf%d" % lo, "kind": "perms", "seed": 0, "modes": allm[lo:lo + 512], "as_dirs": False})
     jobs.append({"id": "permd", "kind": "perms", "seed": 0, "modes": sorted(rng.sample(allm, 512)), "as_dirs": True})
-    for i in range(96 if quick else 800):
+    for i in range(400 if quick else 1600):
         jobs.append({"id": "tree%d" % i, "kind": "tree", "seed": job_seed(chk.seed, "C04", "t%d" % i), "fifo": i % 2 == 0})
-    for i in range(8 if quick else 64):
+    for i in range(24 if quick else 96):
         jobs.append({"id": "xattr%d" % i, "kind": "xattr", "seed": job_seed(chk.seed, "C04", "x%d" % i)})
     for lo in range(0, 41, 6):
         jobs.append({"id": "caps%d" % lo, "kind": "caps", "seed": job_seed(chk.seed, "C04", "c%d" % lo), "caps": list(range(lo, min(41, lo + 6))),
